@@ -2,7 +2,7 @@
 Theorems: coq/Properties/C11.v (all input strings; the character classes isspace/isalpha/isnumeric
 are parameters constrained by Lexer.class_ok_b, checked here on every code point of CPython).
 Tie: ka.tokens.tokenise against the Gallina lexer (Model/Lexer.v, run in the Coq VM) on
- * every string up to a length bound over a 32-symbol alphabet with one representative per
+ * every string up to a length bound over a 33-symbol alphabet with one representative per
    character class (longer lengths over two reduced alphabets),
  * all ordered pairs of representative lexemes, with and without a space between them,
  * seeded random sequences of valid (and some invalid) tokens rendered with random whitespace,
@@ -10,7 +10,8 @@ comparing (tag, begin, end, value) per token or (error class, index).  The prope
 relations (reassembly, whitespace insertion at every token boundary, literal value against an
 independent exact computation, longest match, keyword rule, unclosed-delimiter position) are
 evaluated on the implementation for every generated string, independent of the model; a
-subsample also goes through execute()."""
+subsample also goes through execute().  Inputs whose merged exponent has four or more digits are
+not generated (10**exponent is computed eagerly by the lexer: a resource question, not C11's)."""
 import random, itertools, json, sys, re
 from fractions import Fraction
 import common as C
@@ -373,7 +374,7 @@ def impl_batch(job):
         if toks is not None:
             st["ok"] += 1
             st["tokens"] += len(toks)
-            st["ws_checks"] += (2 * len(toks) + 2)
+            st["ws_checks"] += len(wsc) * len(set([0, len(s)] + [t.begin_index_incl for t in toks] + [t.end_index_excl for t in toks]))
             st["numbers"] += sum(1 for t in toks if t.tag == "number")
         else:
             st["err"] += 1
@@ -519,12 +520,6 @@ def lines_agree(m, i):
         if not float_close(f, q):
             return False
     return True
-
-
-def near_overflow(s):
-    """a decimal whose exact value is within 1e-15 of the float overflow threshold: the model's ideal
-    rounding and the implementation's (up to three roundings) may legitimately differ"""
-    return False
 
 
 def check_classes(consts):
@@ -757,7 +752,7 @@ def run(ctx):
     total = sum(fam_count.values())
     rep.coverage.update(dict(
         evaluations=total, distinct_nontrivial=nontrivial,
-        rule="distinct input strings; non-trivial = lexes to at least one token or raises a lexical error. Exhaustive: all strings of length <= %d over the %d-symbol alphabet %r, lengths %d..%d over the reduced alphabets %r and %r; all ordered pairs of %d representative lexemes with and without a space; %d seeded random token sequences with random whitespace; %d regression inputs"
+        rule="distinct input strings; non-trivial = lexes to at least one token or raises a lexical error. Exhaustive: all strings of length <= %d over the %d-symbol alphabet %r, lengths %d..%d over the reduced alphabets %r and %r; all ordered pairs of %d representative lexemes with and without a space, seeded random token sequences with random whitespace and the regression inputs (%d distinct strings; %d regression inputs)"
              % (L_full if not ctx.get("replay") else 0, len(ALPHABET), "".join(ALPHABET), (L_full + 1) if not ctx.get("replay") else 0, L_red if not ctx.get("replay") else 0,
                 "".join(RED1[:12] if quick else RED1), "".join(RED2[:10] if quick else RED2), len(representative_lexemes(consts)), fam_count.get("explicit", 0), len(REGRESSION)),
         exhaustive=True, samples=samples, families=fam_count, lexed_ok=stats["ok"], lexical_errors=stats["err"],
